@@ -18,6 +18,8 @@ Lemma audience_is_compared : jwt_audience_compared = true.
 Proof. reflexivity. Qed.
 Lemma app_binding_is_checked : jwt_app_bound = true.
 Proof. reflexivity. Qed.
+Lemma signer_copies_secret : jwt_signer_copies_secret = true.
+Proof. reflexivity. Qed.
 Lemma secrets_have_a_minimum_length : (1 <= jwt_secret_min_len)%N.
 Proof. vm_compute. discriminate. Qed.
 Lemma parser_has_clock_and_json_number_only : jwt_parser_plain = true.
@@ -154,9 +156,10 @@ Qed.
 
 (* ---- 3c. "a signer with the same secret": the secret is the byte string the signer was constructed
    with.  Full statement: forall t, working_key t = t_key t (what the caller does to its buffer
-   afterwards does not matter).  It holds iff NewJWTSigner copies the secret; if it keeps the caller's
-   slice, a caller that wipes its buffer turns the signer's secret into zeros, under which anybody
-   can sign (finding C14-ALIAS); the partial statement is for callers that leave the buffer alone. *)
+   afterwards does not matter).  It holds iff NewJWTSigner copies the secret (it does since the repair of
+   C14-ALIAS: side condition signer_copies_secret); if it kept the caller's slice, a caller that wipes
+   its buffer would turn the signer's secret into zeros, under which anybody can sign; the partial
+   statement is for callers that leave the buffer alone. *)
 Theorem signer_secret_fixed_iff_copied :
   (forall t, working_key t = t_key t) <-> jwt_signer_copies_secret = true.
 Proof. exact (working_key_iff jwt_signer_copies_secret). Qed.
@@ -167,7 +170,7 @@ Theorem signer_secret_status :
 Proof.
   unfold working_key. destruct jwt_signer_copies_secret.
   - intros t. reflexivity.
-  - exists (mkTrace [1]%N [0]%N 0 [] [] VNoSplit ORaw OPanic OPanic None). discriminate.
+  - exists (mkTrace [1]%N [0]%N false 0 [] [] VNoSplit ORaw OPanic OPanic None). discriminate.
 Qed.
 
 Theorem signer_secret_partial : forall t, t_key_buf t = t_key t -> working_key t = t_key t.
@@ -176,10 +179,12 @@ Proof. intros t H. unfold working_key, working_key_g. destruct jwt_signer_copies
 (* ---- 4. the trace oracle follows from the model wherever code and model agree ---- *)
 Theorem oracle_follows_from_model : forall t,
   origin_consistent t -> t_aud t <> []%N ->
-  working_key t = t_key t ->
   validate_tok (t_key t) (t_aud t) (t_now t) (t_view t) <> Panic ->
   agrees (TVal t) = true -> satisfies (TVal t) = true.
-Proof. exact (agrees_satisfies issue_writes_what_validate_reads). Qed.
+Proof.
+  intros t OC Ha NP A.
+  exact (agrees_satisfies issue_writes_what_validate_reads t OC Ha (proj2 signer_secret_fixed_iff_copied signer_copies_secret t) NP A).
+Qed.
 
 Theorem key_oracle_follows_from_model : forall t, agrees (TKeys t) = true -> satisfies (TKeys t) = true.
 Proof. exact agrees_satisfies_k. Qed.
@@ -229,7 +234,7 @@ Proof. vm_compute. repeat split. discriminate. Qed.
 (* the oracle on such a pair: acceptance under the other secret is a violation, and so is an equal
    keyed hash; the model disagrees with both *)
 Example key_oracle_nonvacuous :
-  let bad := mkTrace ex_key_last ex_key_last ex_t0 ex_aud ex_app (ex_view ex_key) (OIssued ex_key true ex_app ex_aud ex_t0 ex_d 77 [])
+  let bad := mkTrace ex_key_last ex_key_last false ex_t0 ex_aud ex_app (ex_view ex_key) (OIssued ex_key true ex_app ex_aud ex_t0 ex_d 77 [])
                      (OOk (mkGp ex_app ex_d (Some ex_t0)) 77) (OOk (mkGp ex_app ex_d (Some ex_t0)) 77) None in
   satisfies (TVal bad) = false /\ agrees (TVal bad) = false
   /\ satisfies (TKeys (mkKeys ex_key ex_key_last true true (Some true))) = false
@@ -259,11 +264,22 @@ Proof. vm_compute. repeat split. Qed.
 Example alias_nonvacuous :
   let zeros := repeat 0%N 64 in
   let v := issued_view zeros ex_aud ex_app ex_d ex_t0 [50;48;50;54]%N ex_pl (Some 77%N) in
-  let t o := mkTrace ex_prefix zeros ex_t0 ex_aud ex_app v (OSigned (Some zeros) (Some ex_aud) (Some ex_app) None) o o None in
+  let t o := mkTrace ex_prefix zeros false ex_t0 ex_aud ex_app v (OSigned (Some zeros) (Some ex_aud) (Some ex_app) None) o o None in
   validate_tok (working_key_g false (t OPanic)) ex_aud ex_t0 v = Ok (mkGp ex_app ex_d (Some ex_t0)) 77
   /\ validate_tok (working_key_g true (t OPanic)) ex_aud ex_t0 v = Err ESignature
   /\ satisfies (TVal (t (OOk (mkGp ex_app ex_d (Some ex_t0)) 77))) = false
   /\ satisfies (TVal (t (OErr ESignature))) = true.
+Proof. vm_compute. repeat split. Qed.
+
+(* Authenticate: the empty string is the guest, a white-space string is not; white space around a
+   genuine token is not that token *)
+Example authenticate_nonvacuous :
+  let t e v org a := mkTrace ex_key ex_key e ex_t0 ex_aud ex_app v org (OErr EInvalidToken) (OErr EInvalidToken) (Some a) in
+  agrees (TVal (t true VNoSplit ORaw 3%N)) = true /\ satisfies (TVal (t true VNoSplit ORaw 3%N)) = true
+  /\ agrees (TVal (t false VNoSplit ORaw 1%N)) = true /\ satisfies (TVal (t false VNoSplit ORaw 1%N)) = true
+  /\ satisfies (TVal (t false VNoSplit ORaw 3%N)) = false /\ agrees (TVal (t false VNoSplit ORaw 3%N)) = false
+  /\ satisfies (TVal (t false VNoSplit (OIssued ex_key false ex_app ex_aud ex_t0 ex_d 77 []) 0%N)) = false
+  /\ agrees (TVal (t false VNoSplit (OIssued ex_key false ex_app ex_aud ex_t0 ex_d 77 []) 0%N)) = false.
 Proof. vm_compute. repeat split. Qed.
 
 (* forged views: typed claims never panic whatever else is wrong; the bare one is the F13 witness *)
@@ -295,7 +311,7 @@ Proof. vm_compute. repeat split. Qed.
 
 (* a truthful trace on which the model's outputs are the observed ones *)
 Example oracle_nonvacuous :
-  let t := mkTrace ex_key ex_key ex_t0 ex_aud ex_app (ex_view ex_key) (OIssued ex_key true ex_app ex_aud ex_t0 ex_d 77 [])
+  let t := mkTrace ex_key ex_key false ex_t0 ex_aud ex_app (ex_view ex_key) (OIssued ex_key true ex_app ex_aud ex_t0 ex_d 77 [])
                    (OOk (mkGp ex_app ex_d (Some ex_t0)) 77) (OOk (mkGp ex_app ex_d (Some ex_t0)) 77) (Some 0%N) in
   agrees (TVal t) = true /\ satisfies (TVal t) = true /\ validate_tok (t_key t) (t_aud t) (t_now t) (t_view t) <> Panic.
 Proof. vm_compute. repeat split. discriminate. Qed.
